@@ -499,5 +499,5 @@ func TransformBlankNode(row string) string {
 	blankNode := row[prefixIndex:sepIndex]
 	suffix := row[sepIndex:]
 
-	return fmt.Sprintf("%s<urn:bnid:%s>%s", prefix, blankNode, suffix)
+	return fmt.Sprintf("%s<urn:bnid:%s>%s", prefix, blankNode, TransformBlankNode(suffix))
 }
